@@ -857,6 +857,9 @@ def run(ctx):
     ev = ctx.ev
     part = getattr(ctx, "part", None)
     cells = [(c, s) for c in CODECS for s in STYLES]
+    if part and ":" in part:  # debugging: "--part random:shift_jis" / "sweep:utf-8-bom/conflict"
+        part, sel = part.split(":", 1)
+        cells = [(c, s) for c, s in cells if sel in (c, s, "%s/%s" % (c, s))]
     if part in (None, "known"):
         ctx.pmap(shard_known, [0])
     if part in (None, "sweep"):
